@@ -94,6 +94,9 @@ func vNewConn(t *vTransport, boot *capnp.Client) *Conn {
 		abortTimeout: 100,
 	}
 	t.conn = c
+	// every other goroutine of the connection is quiescent in these harnesses: a wait that nothing in
+	// the executed code can satisfy is a hang
+	vNoBlock(true)
 	return c
 }
 
